@@ -1350,6 +1350,25 @@ func (v *V) applyContract(e *Env, fs *FuncSpec, fn *types.Func, recv *Val, args 
 	}
 	argBind := argBinding(recv, args)
 	v.atStmts(e, call, false, argBind, nil)
+	if nm, ok := v.callOrd[call]; ok && v.top != nil && v.dry == 0 && contains(v.spec.CutAfter, nm) {
+		// `cutafter call NAME#k`: only the prefix up to this call is under contract. The callee's
+		// precondition is still an obligation; its postcondition is not needed (the path ends here).
+		for i, c := range fs.Requires {
+			ce := mkEnv(e.st, nil)
+			ce.proving = true
+			goal := v.evalClause(ce, c)
+			v.addObl(e.st, fmt.Sprintf("%s/call-pre#%s.%d", v.fi.name(), nm, i), "call-pre", goal, call.Pos(), "precondition of "+fs.Key+": "+c.Src, "unsat")
+		}
+		v.cutUsed[nm] = true
+		e.st.dead = true
+		var zs []Val
+		if sig, ok := fn.Type().(*types.Signature); ok {
+			for i := 0; i < sig.Results().Len(); i++ {
+				zs = append(zs, e.zero(sig.Results().At(i).Type()))
+			}
+		}
+		return zs
+	}
 	// ghost parameters of the callee: universally quantified in its ensures
 	ghostClauses := func(cs []Clause) (plain, ghosty []Clause) {
 		for _, c := range cs {
